@@ -15,7 +15,7 @@ Proof. exact deserialize_ok_bounded. Qed.
    panic site: an image leaf may be rejected (Err), nothing is ever Stuck *)
 Theorem c14_countmin_ok_value_is_usable :
   forall nh nb mx sh, 1 <= nh < 256 -> 3 <= nb < 4294967296 -> nh * nb < zN Gen.GenCountMin.MAX_TABLE_ENTRIES ->
-  sh < 65536 -> mx < M64 ->
+  0 < sh < 65536 -> mx < M64 ->
   forall bucket : N -> N -> N, (forall x r, bucket x r < nb) ->
   forall p : prog, pok nh nb mx sh p -> pweight mx sh p <= mx -> eval nh nb mx sh bucket p <> Stuck.
 Proof. exact api_never_stuck. Qed.
